@@ -29,7 +29,7 @@ SEEDS = [
     ('group_content', "s: (", ")\n"),
     ('optional_q', "s: 'a'", "\n"),
 ]
-QUICK = ['expr_start', 'prefix_op', 'naming_op', 'rule_def_op', 'alert_level', 'params', 'leading', 'optional_q']
+QUICK = ['expr_start', 'prefix_op', 'naming_op', 'rule_def_op', 'alert_level', 'params', 'leading']
 
 
 def norm(v):
@@ -138,7 +138,7 @@ def obligations(tier, seed, group='boot'):
         if nm not in names:
             continue
         obs.append(Ob(name=f'hole1_{nm}', factory='vt.props.c15:make_boot', spec={'program': nm, 'pre': pre, 'post': post, 'k': 1, 'regen': tier != 'quick'},
-                      params=[('c0', 0, UNI)], budget=420 if tier == 'quick' else 1800, per_path=120, group=group, require_tags=('rejected',)))
+                      params=[('c0', 0, UNI)], budget=360 if tier == 'quick' else 1800, per_path=120, group=group, require_tags=('rejected',)))
     if tier != 'quick':
         for nm, pre, post in SEEDS[:6]:
             obs.append(Ob(name=f'hole2_{nm}', factory='vt.props.c15:make_boot', spec={'program': nm, 'pre': pre, 'post': post, 'k': 2, 'regen': False},
